@@ -86,6 +86,9 @@ func escapeDrive(args []string) {
 			b := lib.RandBytes(r, lib.PayloadTokens, *maxTok)
 			rep.Guard("escape:panic", escapeCase{"escape", b}, func() { judgeEscape(rep, b, nil) })
 			if !tw.Full() && len(b) <= 60 {
+				rep.Guard("escape:panic", escapeCase{"escape", b}, func() { recordEscape(tw, r, b) })
+			}
+			if false {
 				k := r.Intn(len(b) + 1)
 				brk, strip := r.Intn(2) == 0, r.Intn(4) == 0
 				res := escape.InternalEscapeBytes(append([]byte(nil), b...), k, brk, strip)
@@ -96,6 +99,14 @@ func escapeDrive(args []string) {
 	})
 	rep.Extra["trace_events"] = tw.Close()
 	rep.Finish()
+}
+
+func recordEscape(tw *lib.TraceWriter, r *rand.Rand, b []byte) {
+	k := r.Intn(len(b) + 1)
+	brk, strip := r.Intn(2) == 0, r.Intn(4) == 0
+	res := escape.InternalEscapeBytes(append([]byte(nil), b...), k, brk, strip)
+	tw.Emit(map[string]interface{}{"k": "escape", "b": lib.B(b), "at": k, "brk": brk, "strip": strip, "res": lib.B(res)})
+	tw.Emit(map[string]interface{}{"k": "escbytes", "b": lib.B(b), "res": lib.B(redact.EscapeBytes(b))})
 }
 
 // rawFragments are well-formed, line-safe pieces a PreRedactable write may carry.
